@@ -386,6 +386,29 @@ Section Policy.
         rewrite (H pi s (or_introl eq_refl) Ex). exact Hr.
   Qed.
 
+  (* b3 signs and checks nothing of the (in-memory) request headers ... *)
+  Definition set_reqh (e : exchange) (h : headers) : exchange :=
+    {| e_ver := e_ver e; e_uri := e_uri e; e_method := e_method e; e_reqh := h;
+       e_status := e_status e; e_resph := e_resph e; e_sig := e_sig e; e_payload := e_payload e;
+       e_taint := e_taint e |}.
+
+  Lemma signed_message_b3_reqh (e : exchange) (h : headers) cs v d x :
+    e_ver e = V1b3 -> signed_message (set_reqh e h) cs v d x = signed_message e cs v d x.
+  Proof.
+    destruct e as [ver uri meth reqh st resph sg pl tn]. cbn [e_ver]. intros ->. reflexivity.
+  Qed.
+
+  Lemma accepts_b3_reqh (e : exchange) (h : headers) tsec tnsec s p :
+    e_ver e = V1b3 -> Accepts e tsec tnsec s p -> Accepts (set_reqh e h) tsec tnsec s p.
+  Proof.
+    intros Hv (SO & (chain & main & rest & kid & m & Hf & Hc & Hk & Hh & Hm & Hs) & W & P & Rq & Rs & Nb).
+    split; [exact SO|]. split.
+    - exists chain, main, rest, kid, m. rewrite signed_message_b3_reqh by exact Hv.
+      repeat split; assumption.
+    - split; [exact W|]. split; [exact P|]. split; [|split; [exact Rs|exact Nb]].
+      unfold RequestOk, set_reqh. cbn [e_ver]. rewrite Hv. discriminate.
+  Qed.
+
   (* ---- C09: verify_iff ------------------------------------------------------------------ *)
   (* the standing assumptions: untainted exchange, a b3 exchange has no request
      headers, realistic clock, and the URL model decides every URL involved *)
